@@ -8,5 +8,5 @@ trap 'git -C /repo apply -R "'"$PWD/$d/patch.diff"'" || echo "WARNING: could not
 props="$@"
 [ -z "$props" ] && props=$(python3 -c "import json;print(json.load(open('$d/meta.json'))['property'])" 2>/dev/null)
 for p in $props; do
-  ./check prove $p --tier quick | grep -E "VIOLATION|KNOWN|^gvc|ERROR" | cut -c1-260
+  GVC_NO_EVIDENCE=1 ./check prove $p --tier quick | grep -E "VIOLATION|KNOWN|^gvc|ERROR" | cut -c1-260
 done
